@@ -184,6 +184,10 @@ impl Ctx {
                 imp
             }
         };
+        if imp.starts_with("LOGDIFF") {
+            let ex = Exchange { line: line.to_string(), imp: imp.clone(), model: String::new(), agree: false, supported: true };
+            self.violation("oracle", &format!("the engine answers this request differently when a logging subscriber is installed: {}", trunc(&imp, 500)), &ex, line, true);
+        }
         let mut model = self.drv.ask(line);
         if model == "DRIVER-DEAD" {
             // restart once
@@ -211,7 +215,13 @@ impl Ctx {
         }
         let limit = if self.tier == "thorough" { 120 } else { 30 };
         match self.worker.as_ref().unwrap().ask(line, limit) {
-            Some(s) => s,
+            Some(s) => {
+                if s.starts_with("LOGDIFF") {
+                    let ex = Exchange { line: line.to_string(), imp: s.clone(), model: String::new(), agree: false, supported: false };
+                    self.violation("oracle", &format!("the engine answers this request differently when a logging subscriber is installed: {}", trunc(&s, 500)), &ex, line, true);
+                }
+                s
+            }
             None => {
                 self.hung = true;
                 self.worker = None;
